@@ -392,6 +392,17 @@ pub fn write_phase(table: &[Ops], t: &Trace, record: bool) -> Result<Written, Vi
                 Err(p) => return Err(viol("L1", i, &f0, format!("{}: EncodeLike probe unwound: {}", ops.name, panic_msg(p)))),
             }
         }
+        if i == 0 {
+            // L1, compound peers (pairs of fixed-point types / of integers, byte arrays): family level
+            match catch_unwind(simcore::lay::el_compound_check) {
+                Ok((_, None)) => {}
+                Ok((_, Some(m))) => {
+                    log.ev(ev::CHECK_FAIL, check_no("L1"), i as u64);
+                    return Err(viol("L1", i, &f0, m));
+                }
+                Err(p) => return Err(viol("L1", i, &f0, format!("EncodeLike probe (compound peers) unwound: {}", panic_msg(p)))),
+            }
+        }
         // M1: published metadata describes the plain integer
         match catch_unwind(|| (ops.meta_check)()) {
             Ok(Ok(())) => log.ev(ev::CHECK_OK, check_no("M1"), i as u64),
@@ -939,8 +950,32 @@ pub fn read_pass(table: &[Ops], t: &Trace, w: &Written, fault: &Fault, record: b
                 inp.log.ev(ev::CHECK_OK, check_no("D3"), i as u64);
                 // D6: recovery — the same reader on an intact copy, one step later, sees the model value
                 if !matches!(fault, Fault::ReaderWider(_)) {
-                    let mut fresh = SimInput::new(&w.medium, s, None, InputMode::plain(), false);
                     let rd = if reader.last_only() && (i != last || matches!(fault, Fault::Trailing(_))) { Reader::Decode } else { reader };
+                    // first the way a caller retries: through the *same* input object, re-pointed at the
+                    // intact bytes (same address, same variable) ...
+                    let (sr0, ei0) = inp.io_stats();
+                    stats.short_reads += sr0;
+                    stats.eintrs += ei0;
+                    inp.data = &w.medium;
+                    inp.pos = s;
+                    inp.err_from = None;
+                    inp.mode = InputMode::plain();
+                    inp.io = None;
+                    inp.hook = None;
+                    inp.depth = 0;
+                    let again = run_reader(table[r.r_lay as usize].dec, r.shape, rd, &mut inp);
+                    let good = match &again {
+                        Outcome::Ok(Some(v)) => *v == expected_values(r) && inp.pos == e,
+                        Outcome::Ok(None) => inp.pos == e,
+                        _ => false,
+                    };
+                    inp.log.ev(ev::REC_READ, i as u64, (again.class() << 32) | inp.pos as u64);
+                    if !good {
+                        violation = Some(viol("D6", i, fault, format!("{}: after the failed decode, re-reading the intact record through the same input object gave {:x?} (position {})", desc(), again, inp.pos)));
+                        break;
+                    }
+                    // ... then through a fresh one
+                    let mut fresh = SimInput::new(&w.medium, s, None, InputMode::plain(), false);
                     let again = run_reader(table[r.r_lay as usize].dec, r.shape, rd, &mut fresh);
                     let good = match &again {
                         Outcome::Ok(Some(v)) => *v == expected_values(r) && fresh.pos == e,
@@ -989,8 +1024,8 @@ pub fn read_pass(table: &[Ops], t: &Trace, w: &Written, fault: &Fault, record: b
         }
     }
     let (sr, ei) = inp.io_stats();
-    stats.short_reads = sr;
-    stats.eintrs = ei;
+    stats.short_reads += sr;
+    stats.eintrs += ei;
     stats.steps = inp.log.steps;
     // D5 (absorption): a D1/D2 failure that disappears when the very same history and fault are replayed
     // through a plain input (exact remaining_len, default read_byte, no IoReader chunking / EINTR) is a
